@@ -228,10 +228,15 @@ class InteractiveEditor:
         self.meta = pyben.load(metafile)
         self.info = self.meta["info"]
 
+        # edit_torrent takes the trackers as one flat list of urls
+        trackers = self.meta.get("announce-list", None)
+        if trackers is not None:
+            trackers = [url for tier in trackers for url in tier] or None
+
         self.args = {
             "url-list": self.meta.get("url-list", None),
             "httpseeds": self.meta.get("httpseeds", None),
-            "announce": self.meta.get("announce-list", None),
+            "announce": trackers,
             "source": self.info.get("source", None),
             "private": self.info.get("private", None),
             "comment": self.info.get("comment", None),
